@@ -27,6 +27,9 @@ def check(repo: Repo, R) -> None:
     freeze(repo, R)
     id_keyed_caches(repo, R)
     cache_ownership(repo, R)
+    from . import c08
+    c08.check(repo, shared.Retag(R, lambda r: "C07.6-failed-visit-never-revisited" if r.startswith("C08.3") else None,
+                                 "elaborating the same module again after a failed visit gives another result than the first call (the half-rewritten module passes)"))
     R.floor("C07.1-snapshot-before-flattening", 2)
     R.floor("C07.2-bundled-vs-flattened-io", 2)
     R.floor("C07.3-freeze", 3)
@@ -149,6 +152,13 @@ def io_choice(repo: Repo, R):
     ok2 = isinstance(last, ast.Return) and ast.unparse(last.value) == f"io({a})"
     R.check(ok and ok2, rule, key_of(fr), fr.site, f"io_for_resolving returns the snapshot iff it exists ({ok}), else the current io ({ok2})",
             why="a port reference to a bundle-valued port of an already flattened child creates the wrong kind of implicit net")
+    # both users of a child's ports during reference / no-connect resolution go through io_for_resolving
+    for q in ("ResolvePortRefs.create_source", "ResolvePortRefs.replace_noconn"):
+        f = repo.func(F_PORTREFS, q)
+        calls = [ast.unparse(c) for c in au.calls_in(f.node) if (dotted(c.func) or "") in ("io", "io_for_resolving", "io_for_checking")]
+        ok = calls == ["io_for_resolving(portref.inst.of)"]
+        R.check(ok, rule, key_of(f, "io-source"), f.site, f"{q} reads the child's ports through {calls} (expected io_for_resolving(portref.inst.of): the pre-flattening snapshot when the child was elaborated earlier)",
+                why="a no-connect or port reference on a bundle-valued port works when the child is fresh and fails (or resolves to a flattened scalar) when the child was elaborated or exported earlier")
     fio = repo.func(F_INSTANTIABLE, "io")
     a = fio.node.args.args[0].arg
     ok = bool(pat.find(f"$RV = copy.copy({a}.ports)", fio.node)) and bool(pat.find(f"$RV.update(copy.copy({a}.bundle_ports))", fio.node))
